@@ -99,8 +99,10 @@ def scale_check(res):
     """Long derivable sentences: accepted by the plain parser and, identically, by a caching one (miss and hit)."""
     e1.get_real()
     api = snapshot.api()
-    for n in (60, 400, 1500):
+    for n in (60, 400, 1500, 10001):
         for label, text in long_sentences(n):
+            if n > 1500 and label not in ('list', 'dict', 'args', 'statements'):
+                continue
             outs = []
             for mode in ('plain', 'cache-miss', 'cache-hit'):
                 if mode == 'plain':
